@@ -69,7 +69,10 @@ Mk(op, p, a, b, c, k, imm, cc, args) ==
 I(x) == <<"I", x>>
 Prologue(p) == (IF p >= 3 THEN << I(<<"initall", 3, p>>) >> ELSE << >>)
                \o [k \in 1..NS |-> I(<<"sst", k - 1, ((k - 1) % p) + 1>>)]
-Epilogue(p) == << I(<<"mov", p + 3, 1>>) >> \o (IF p >= 2 THEN << I(<<"fold", p + 3, 2, p>>) >> ELSE << >>)
+(* the final fold is emitted in chunks of 16 registers (bounded recursion depth of FoldVal in TLC) *)
+FoldChunks(p) == [c \in 1..((p - 1 + 15) \div 16) |->
+                    I(<<"fold", p + 3, 2 + 16 * (c - 1), IF 1 + 16 * c < p THEN 1 + 16 * c ELSE p>>)]
+Epilogue(p) == << I(<<"mov", p + 3, 1>>) >> \o (IF p >= 2 THEN FoldChunks(p) ELSE << >>)
                \o << I(<<"st", 0, p + 3>>), I(<<"ret", p + 3>>) >>
 Body(s, p, n) ==
   CASE s = "straight" -> << <<"B", 3 * n>> >>
